@@ -135,7 +135,10 @@ def execute(s, ch):
             tracer = linetrace.LineTracer(k, (os.path.join(src, "deep/config"), os.path.join(src, "deep/task"),
                                               os.path.join(src, "deep/poll"),
                                               os.path.join(src, "deep/processor/trigger_handler.py"),
-                                              os.path.join(src, "deep/api/tracepoint/trigger.py")))
+                                              os.path.join(src, "deep/api/tracepoint/trigger.py")),
+                                          # strategy C: while the handler's configuration is being replaced, hand over
+                                          # to the application thread that is running through the probed lines
+                                          targets={"new_config": ("prober", 0.5)} if s.get("prober") else None)
             tracer.install()
         w.start()
         handles = {}
